@@ -85,7 +85,7 @@ def rtsafe_(f, x0, bracket, settings):
     x0 = np.clip(x0, bracket[0], bracket[1])
 
     # check that root is bracketed
-    x0 = np.where(fl*fh < 0.0,
+    x0 = np.where(np.sign(fl)*np.sign(fh) < 0.0,
                   x0,
                   np.nan)
 
@@ -121,7 +121,7 @@ def rtsafe_(f, x0, bracket, settings):
     def loop_body(carry):
         root, dx, dxOld, F, DF, xl, xh, converged, i = carry
         
-        newtonOutOfRange = ((root - xh)*DF - F) * ((root - xl)*DF - F) > 0
+        newtonOutOfRange = np.sign((root - xh)*DF - F) * np.sign((root - xl)*DF - F) > 0
         newtonDecreasingSlowly = np.abs(2.*F) > np.abs(dxOld*DF)
         dxOld = dx
         root, dx, converged = jax.lax.cond(newtonOutOfRange | newtonDecreasingSlowly,
